@@ -127,11 +127,11 @@ theorem C02_old_vbs_alloc_witness :
 
 /-! ### SerializableOrderedMap.Decode, typeutils -/
 
-theorem omapLoop_bounds (kw vw : Nat) (k : Nat) (b : Bytes) (acc : Nat) :
-    ((Deser.omapLoop kw vw k b acc).1 = .ok → (Deser.omapLoop kw vw k b acc).2.1 ≤ acc + b.length) ∧
-    (1 ≤ kw + vw → (Deser.omapLoop kw vw k b acc).2.2 ≤ b.length + 1) ∧
-    (Deser.omapLoop kw vw k b acc).1 ≠ .panic := by
-  induction k generalizing b acc with
+theorem omapLoop_bounds (kw vw : Nat) (k : Nat) (b : Bytes) (acc : Nat) (seen : List Bytes) :
+    ((Deser.omapLoop kw vw k b acc seen).1 = .ok → (Deser.omapLoop kw vw k b acc seen).2.1 ≤ acc + b.length) ∧
+    (1 ≤ kw + vw → (Deser.omapLoop kw vw k b acc seen).2.2 ≤ b.length + 1) ∧
+    (Deser.omapLoop kw vw k b acc seen).1 ≠ .panic := by
+  induction k generalizing b acc seen with
   | zero => simp [Deser.omapLoop]
   | succ k ih =>
     simp only [Deser.omapLoop]
@@ -139,16 +139,19 @@ theorem omapLoop_bounds (kw vw : Nat) (k : Nat) (b : Bytes) (acc : Nat) :
     · simp
     · split
       · simp
-      · rename_i h1 h2
-        simp only [List.length_drop] at h2
-        have := ih (b.drop (kw + vw)) (acc + kw + vw)
-        simp only [List.length_drop] at this
-        refine ⟨fun h => ?_, fun h => ?_, this.2.2⟩
-        · have := this.1 h; simp only; omega
-        · have := this.2.1 h; simp only; omega
+      · split
+        · simp
+        · rename_i h1 _ h2
+          simp only [List.length_drop] at h2
+          have := ih (b.drop (kw + vw)) (acc + kw + vw) (b.take kw :: seen)
+          simp only [List.length_drop] at this
+          refine ⟨fun h => ?_, fun h => ?_, this.2.2⟩
+          · have := this.1 h; simp only; omega
+          · have := this.2.1 h; simp only; omega
 
-/-- `SerializableOrderedMap[uintK, uintV].Decode`: never panics, reports at most the bytes supplied,
-and loops at most once per byte (plus the failing round) whatever its 32-bit count says. -/
+/-- `SerializableOrderedMap[uintK, uintV].Decode` (with its duplicate-key check): never panics, reports
+at most the bytes supplied, and loops at most once per byte (plus the failing round) whatever its
+32-bit count says. -/
 theorem C02_omap_total (kw vw : Nat) (b : Bytes) :
     (Deser.omapDecode kw vw b).1 ≠ .panic ∧
     ((Deser.omapDecode kw vw b).1 = .ok → (Deser.omapDecode kw vw b).2.1 ≤ b.length) ∧
@@ -157,11 +160,17 @@ theorem C02_omap_total (kw vw : Nat) (b : Bytes) :
   split
   · simp
   · rename_i h
-    have := omapLoop_bounds kw vw (leNat (b.take 4)) (b.drop 4) 4
+    have := omapLoop_bounds kw vw (leNat (b.take 4)) (b.drop 4) 4 []
     simp only [List.length_drop] at this
     refine ⟨this.2.2, fun hk => ?_, fun hk => ?_⟩
     · have := this.1 hk; omega
     · have := this.2.1 hk; omega
+
+/-- A key that occurs twice in the serialized bytes is refused; distinct keys decode. -/
+example :
+    (Deser.omapDecode 1 1 [2, 0, 0, 0, 5, 0xaa, 5, 0xbb]).1 = .err ∧
+    Deser.omapDecode 1 1 [2, 0, 0, 0, 5, 0xaa, 6, 0xbb] = (.ok, 8, 2) := by
+  decide
 
 /-- `typeutils.Uint64FromBytes` / `ByteArray32FromBytes`: the consumed count never exceeds the input. -/
 theorem C02_typeutils_consumed_le (n : Nat) (b v : Bytes) (c : Nat) (h : Deser.fromBytesFixed n b = some (v, c)) :
